@@ -119,7 +119,7 @@ def random_d8_raster(rng, nr, nc, p_nodata=0.1, loopfree=True):
                 if not loopfree or (pot[j], j) < (pot[i], i):
                     cands.append(code)
         if not cands or rng.random() < 0.1:
-            flw.append(rng.choice([0, 255]) if rng.random() < 0.8 else rng.choice(list(D8.values())))
+            flw.append(rng.choice([0, 255]) if (loopfree or rng.random() < 0.8) else rng.choice(list(D8.values())))
         else:
             flw.append(rng.choice(cands))
     return flw
